@@ -201,6 +201,8 @@ def signature(head, e, bad):
     clause = bad[0].split(":")[1].strip() if bad[0].count(":") >= 2 else bad[0]
     if e["ev"] == "call":
         return "%s %s %s/%s/%s tmpl=%s: %s" % (VARIANT_NAME.get(head["c"]["variant"], "?"), e["op"], e["kind"], e["beh"], e["ctx"], head["c"]["tmpl"], clause)
+    if e["ev"] == "reset":
+        return "NewKMSEnvelopeAEAD2 Encrypt over an honest remote (DEK template %s): %s" % (e["dek"], clause)
     return "%s construction tmpl=%s client=%s: %s" % (VARIANT_NAME.get(head["c"]["variant"], "?"), head["c"]["tmpl"], head["c"]["client"], clause)
 
 
@@ -286,41 +288,172 @@ def coverage(ctx, lines):
     return n_remote
 
 
+def _one(ev):
+    return len(ev["rcalls"]) == 1
+
+
+def _c_ad(ev, rng):
+    if _one(ev):
+        ev["rcalls"][0]["ad"] = "00"
+        return ev
+
+
+def _c_drop(ev, rng):
+    if _one(ev):
+        ev["rcalls"] = []
+        return ev
+
+
+def _c_twice(ev, rng):
+    if _one(ev):
+        rc = ev["rcalls"][0]
+        ev["rcalls"] = [rc, dict(rc, t0=rc["t1"], t1=rc["t1"])]
+        return ev
+
+
+def _c_partial(ev, rng):
+    if ev["res"] == "err":
+        ev["out"], ev["outnil"] = "00", False
+        return ev
+
+
+def _c_plaintext(ev, rng):
+    if ev["res"] == "ok" and ev["op"] == "Decrypt":
+        ev["out"] = ev["out"] + "00"
+        return ev
+
+
+def _c_payload(ev, rng):
+    if ev["res"] == "ok" and ev["op"] == "Encrypt" and len(ev["out"]) > 20:
+        k = len(ev["out"]) - 2 - 2 * rng.randrange(6)
+        ev["out"] = ev["out"][:k] + ("%02x" % (int(ev["out"][k:k + 2], 16) ^ 1)) + ev["out"][k + 2:]
+        return ev
+
+
+def _c_encdek(ev, rng):
+    if ev["res"] == "ok" and ev["op"] == "Encrypt" and _one(ev) and len(ev["rcalls"][0]["ret"]) > 8:
+        r = ev["rcalls"][0]["ret"]
+        ev["rcalls"][0]["ret"] = r[:6] + ("%02x" % (int(r[6:8], 16) ^ 4)) + r[8:]
+        return ev
+
+
+def _c_surface(ev, rng):
+    if ev["res"] == "err" and _one(ev) and ev["rcalls"][0]["reterr"]:
+        ev["res"], ev["errrem"], ev["errctx"] = "ok", False, False
+        return ev
+
+
+def _c_ctx(ev, rng):
+    if _one(ev) and ev["rcalls"][0]["ctx"] in ("live", "cancelled", "expiring"):
+        ev["rcalls"][0]["ctx"] = "background"
+        return ev
+
+
+def _c_recovery(ev, rng):
+    healthy = ev["beh"] in ("ok", "slow") and ev["ctx"] in ("none", "live") and (ev["op"] == "Encrypt" or ev["kind"] == "good")
+    if ev["res"] == "ok" and healthy and _one(ev):
+        ev["res"], ev["out"], ev["outnil"] = "err", "", True
+        return ev
+
+
+def _c_wrongarg(ev, rng):
+    if ev["op"] == "Decrypt" and _one(ev) and len(ev["rcalls"][0]["arg"]) > 8:
+        a = ev["rcalls"][0]["arg"]
+        ev["rcalls"][0]["arg"] = a[:-2] + ("%02x" % (int(a[-2:], 16) ^ 1))
+        return ev
+
+
+# (what is tampered with, the clause of the contract that must reject it, how)
+CORRUPTIONS = [
+    ("remote call: associated data not empty", "DOC: RemoteArguments", _c_ad),
+    ("remote call dropped", "DOC: RemoteCallAccounting", _c_drop),
+    ("remote call recorded twice", "DOC: RemoteCallAccounting", _c_twice),
+    ("output next to an error", "DOC: NoPartialOutput", _c_partial),
+    ("Decrypt output", "DOC: DecryptSound", _c_plaintext),
+    ("Encrypt output: one bit of the payload", "DOC: D1", _c_payload),
+    ("the remote's returned bytes differ from the stored encrypted DEK", "DOC: D1", _c_encdek),
+    ("result ok although the remote failed", "DOC: FaultSurfaces", _c_surface),
+    ("remote call: another context", "DOC: ContextPassedAlong", _c_ctx),
+    ("a healthy call fails", "DOC: Recovery", _c_recovery),
+    ("Decrypt: the remote is given other bytes than the envelope's encrypted DEK", "DOC: RemoteArguments", _c_wrongarg),
+]
+
+
 def corrupt(ev, rng):
     """negative control: tamper with one recorded field of a call"""
     if ev["ev"] != "call":
         return None
-    ev = json.loads(json.dumps(ev))
-    rcs = ev["rcalls"]
-    choice = rng.randrange(8)
-    if choice == 0 and len(rcs) == 1:
-        rcs[0]["ad"] = "00"
-        ev["_corrupted"] = "remote call: associated data not empty"
-    elif choice == 1 and len(rcs) == 1:
-        ev["rcalls"] = []
-        ev["_corrupted"] = "remote call dropped"
-    elif choice == 2 and len(rcs) == 1:
-        ev["rcalls"] = [rcs[0], dict(rcs[0], t0=rcs[0]["t1"], t1=rcs[0]["t1"])]
-        ev["_corrupted"] = "remote call recorded twice"
-    elif choice == 3 and ev["res"] == "err":
-        ev["out"], ev["outnil"] = "00", False
-        ev["_corrupted"] = "output next to an error"
-    elif choice == 4 and ev["res"] == "ok" and ev["op"] == "Decrypt":
-        ev["out"] = ev["out"] + "00"
-        ev["_corrupted"] = "Decrypt output"
-    elif choice == 5 and ev["res"] == "ok" and ev["op"] == "Encrypt" and len(ev["out"]) > 20:
-        k = len(ev["out"]) - 2 - 2 * rng.randrange(6)
-        ev["out"] = ev["out"][:k] + ("%02x" % (int(ev["out"][k:k + 2], 16) ^ 1)) + ev["out"][k + 2:]
-        ev["_corrupted"] = "Encrypt output: one bit of the payload"
-    elif choice == 6 and ev["res"] == "err" and len(rcs) == 1 and rcs[0]["reterr"]:
-        ev["res"], ev["errrem"], ev["errctx"] = "ok", False, False
-        ev["_corrupted"] = "result ok although the remote failed"
-    elif choice == 7 and len(rcs) == 1 and rcs[0]["ctx"] in ("live", "cancelled", "expiring"):
-        rcs[0]["ctx"] = "background"
-        ev["_corrupted"] = "remote call: another context"
-    else:
-        return None
-    return ev
+    order = list(range(len(CORRUPTIONS)))
+    rng.shuffle(order)
+    for k in order[:3]:
+        name, _, fn = CORRUPTIONS[k]
+        c = fn(json.loads(json.dumps(ev)), rng)
+        if c is not None:
+            c["_corrupted"] = name
+            return c
+    return None
+
+
+def clause_controls(ctx, lines):
+    """every clause of the trace judge is shown live in every run: one recorded call per kind of tampering is
+    changed and TLC must reject exactly that event WITH THE CLAUSE THAT STATES IT (also: an Encrypt that reuses the
+    DEK of the scenario's first envelope)"""
+    import random
+    heads = [i for i, x in enumerate(lines) if '"ev":"reset"' in x]
+
+    def window(k):
+        import bisect
+        j = bisect.bisect_right(heads, k) - 1
+        a = heads[j]
+        b = heads[j + 1] if j + 1 < len(heads) else len(lines)
+        return a, b
+
+    def fresh(ev, rng, pre):
+        if ev["op"] == "Encrypt" and _one(ev) and ev["rcalls"][0]["form"] in ("ok", "alt"):
+            ev["rcalls"][0]["arg"] = pre["dek"]
+            return ev
+
+    todo = [(n, cl, fn, None) for n, cl, fn in CORRUPTIONS] + [("Encrypt hands the remote a DEK used before", "DOC: FreshDEK", None, fresh)]
+    jobs = []
+    for name, clause, fn, special in todo:
+        rng = random.Random(ctx.seed * 31 + len(name))
+        start = rng.randrange(max(1, len(lines) // 2))
+        found = None
+        for k in list(range(start, len(lines))) + list(range(0, start)):
+            if '"ev":"call"' not in lines[k]:
+                continue
+            ev = json.loads(lines[k])
+            if special:
+                a, b = window(k)
+                c = special(ev, rng, json.loads(lines[a])["pre"])
+            else:
+                c = fn(ev, rng)
+            if c is not None:
+                found = (k, c)
+                break
+        if not found:
+            raise vlib.Infra("clause control: no recorded call to apply '%s' to" % name)
+        jobs.append((name, clause, found))
+
+    def work(job):
+        name, clause, (k, c) = job
+        a, b = window(k)
+        sub = lines[a:b]
+        sub[k - a] = json.dumps(c)
+        p = os.path.join(ctx.scratch, "cc.%d.ndjson" % k)
+        open(p, "w").write("\n".join(sub) + "\n")
+        r = ctx.tlc(TRACE, env=dict(VERIF_TRACE=p, VERIF_START=1), workers=1)
+        os.remove(p)
+        bad = (r.last_state or {}).get("bad") or [""]
+        if not r.invariant or (r.last_state or {}).get("l") != (k - a) + 2 or not bad[0].startswith(clause):
+            raise vlib.Infra("clause control '%s': expected rejection by '%s' at the tampered event, TLC says %s / l=%s / %s"
+                             % (name, clause, r.summary(), (r.last_state or {}).get("l"), bad))
+        return name, bad[0]
+
+    with cf.ThreadPoolExecutor(max_workers=6) as ex:
+        res = list(ex.map(work, jobs))
+    ctx.stage("NC:every clause of the judge", **{n: b[:90] for n, b in res})
+    ctx.log("clause controls: %d tamperings, each rejected by the clause that states it" % len(res))
 
 
 # ------------------------------------------------------------------ the check
@@ -405,6 +538,7 @@ def run(ctx):
     for k in (1, len(calls) // 3, len(calls) // 2, (2 * len(calls)) // 3):
         ctx.sample(short(json.loads(calls[k])))
     del lines1, calls
+    clause_controls(ctx, lines2)
     ctx.negative_control(TRACE, merged1, corrupt, reset="reset", stage="NC:plan")
     ctx.negative_control(TRACE, merged2, corrupt, reset="reset", stage="NC:random")
 
